@@ -973,7 +973,9 @@ func (e *Env) typeSide(term string, typ types.Type) {
 // rangeSide records the type-range fact of a heap-read term as a side fact.
 func (e *Env) rangeSide(term string, typ types.Type) {
 	if _, ok := rangeOf(typ); !ok {
-		return
+		if !isStringType(typ) {
+			return
+		}
 	}
 	f := e.vc.d.rangeAssume(term, typ, "", 0)
 	if f != "" {
